@@ -69,6 +69,20 @@ def gen(seed, tier):
     # larger extents (power-of-two and odd), mixed with unit axes: blocked / fast-path transposes
     for sh in ([8, 9], [17, 4], [16, 16], [1, 33], [33, 1], [4, 8, 5], [8, 1, 9], [2, 16, 3], [3, 4, 5, 2], [1, 8, 1, 9]):
         per_shape(sh, out, rng, all_perms=len(sh) <= 3)
+    # total element counts beyond 256 / 1024 (tiled fast paths), non-square, partial last tiles
+    for sh in BIG_SHAPES_2D + BIG_SHAPES_ND:
+        a = arr(sh)
+        n = len(sh)
+        out.append(f"transpose@i32 {a} n")
+        for p in itertools.permutations(range(n)) if n <= 3 else [list(range(n))[::-1], [1, 0] + list(range(2, n)), list(range(1, n)) + [0]]:
+            out.append(f"transpose@i32 {a} {lst(p)}")
+            out.append(f"transpose@i32 {a} {lst([x - n for x in p])}")
+        for s_ in range(n):
+            for d_ in range(n):
+                out.append(f"swapaxes@i32 {a} {z(s_)} {z(d_ - n)}")
+                out.append(f"moveaxis@i32 {a} {lst([s_])} {lst([d_])}")
+                out.append(f"rollaxis@i32 {a} {z(s_)} {z(d_)}")
+            out.append(f"rollaxis@i32 {a} {z(s_)} n")
     if tier == "thorough":
         for _ in range(150):
             sh = [rng.randint(1, 4) for _ in range(5)]
